@@ -65,4 +65,24 @@ def dispatchTags : List String := ["ARTBOARD_DATA1", "ARTBOARD_DATA2", "ARTBOARD
     anything here can make the kind of a record depend on records seen before -/
 def dispatchState : List String := []
 
+/-- the (record, channel list) pairs: every `self.<slot> = <expr>` of api/layers.py / api/psd_image.py for the slots
+    `_record`, `_channels`, `_bounding_record`, `_bounding_channels`: (function, slot, expression) -/
+def pairStores : List (String × String × String) := [("Layer.__init__", "_record", "record"),
+  ("Layer.__init__", "_channels", "channels"),
+  ("Group.__init__", "_bounding_record", "None"),
+  ("Group.__init__", "_bounding_channels", "None"),
+  ("Group._set_bounding_records", "_bounding_record", "_bounding_record"),
+  ("Group._set_bounding_records", "_bounding_channels", "_bounding_channels"),
+  ("PixelLayer._convert", "_channels", "new_layer._channels"),
+  ("PSDImage.__init__", "_record", "data")]
+/-- every call of `_set_bounding_records`: (calling function, arguments) -/
+def pairCalls : List (String × String) := [("Group.new", "_bounding_record, _bounding_channels"),
+  ("Artboard._move", "group._bounding_record, group._bounding_channels"),
+  ("PSDImage._init", "record, channels")]
+/-- the `append`s of `_build_record_tree` in source order: (list, expression) -/
+def flattenAppends : List (String × String) := [("layer_records", "layer._bounding_record"),
+  ("channel_image_data", "layer._bounding_channels"),
+  ("layer_records", "layer._record"),
+  ("channel_image_data", "layer._channels")]
+
 end PsdVerif.Generated.TreeKinds
